@@ -70,6 +70,9 @@ def corpus(tier):
     names = list(at)
     out = [(n,) for n in names]
     out += PAIRS
+    # the same programs with statement ids whose sorted order is the reverse of the order written
+    out += [("@rev-ids", "fan-in"), ("@rev-ids", "three-temps"), ("@rev-ids", "euler", "yield y"),
+            ("@rev-ids", "self-dep-3"), ("@rev-ids", "swap-vectors")]
     if tier == "thorough":
         out += [(a, b) for a in c03.CORE for b in c03.CORE[:10]]
     return out
@@ -79,6 +82,8 @@ def phases_of(names):
     at = atoms()
     body = []
     for n in names:
+        if n == "@rev-ids":
+            continue
         body.extend(at[n])
     return [("init", c03.INIT, "main"), ("main", body, "aux"), ("aux", c03.AUX, "main")]
 
@@ -125,12 +130,15 @@ def build_variant(names, variant):
         with CodeBuilder(name) as cb:
             prog.drive_builder(cb, body, name)
         stmts = list(cb.statements)
+        if names and names[0] == "@rev-ids":
+            ren = {st.id: "%s_z%02d" % (name, len(stmts) - 1 - k) for k, st in enumerate(stmts)}
+            stmts = [st.copy(id=ren[st.id], depends_on=frozenset(ren[d] for d in st.depends_on)) for st in stmts]
         if variant[0] == "perm" and name == "main":
             stmts = [stmts[i] for i in variant[1]]
         elif variant[0] == "rev-others" and name != "main":
             stmts = list(reversed(stmts))
         if variant[0] == "frozenset":
-            phases[name] = cb.as_execution_phase(nxt)
+            phases[name] = ExecutionPhase(name=name, next_phase=nxt, statements=frozenset(stmts))
         else:
             phases[name] = ExecutionPhase(name=name, next_phase=nxt, statements=stmts)
     if variant[0] == "phase-order":
